@@ -7,7 +7,8 @@ TECHNIQUE = 'deductive verification: byte algebra for the framing, an unbounded 
 LEVEL_TEXT = ('Framing: the bytes handed to the transport are the 4-byte big-endian length followed by exactly the serialized payload, and the reply body handed on has exactly the announced length. '
               'Chunk independence: ScalesSocket.readAll is proved, with the loop invariant "buffer = stream[p0 : p0+have]", to return the next sz bytes of the stream for every sequence of chunk sizes recv may return (EOFError on a zero-length chunk). '
               'Reply mapping (DeserializeThriftCall, from the statement): an EXCEPTION message yields the application exception as the error; a set success field yields it as the return value; a set declared exception yields it as the error; '
-              'a void result (result class without a success field, nothing set) yields None without error; a result with a success field and nothing set is reported as an error, never as a return value.')
+              'a void result (result class without a success field, nothing set) yields None without error; a result with a success field and nothing set is reported as an error, never as a return value.'
+              ' The reply mapping is stated as five postconditions of DeserializeThriftCall rather than as assertions at individual return statements: an EXCEPTION message yields the application exception as error with a recorded stack (which is what makes the dispatcher wrap it); a set success value is the return value; otherwise a set declared exception is the error, for void and non-void methods alike; nothing set yields None without error for a void method and a missing-result error otherwise; no result class yields an empty reply.')
 LEVEL_NOTE = ('Trusted: pyvc encoding and byte algebra, z3; the generated result classes and the Thrift protocol objects are abstract externs (read/readMessageBegin may raise; a result instance has a success attribute unless the method is void); '
               'the loop over thrift_spec[1:] is an opaque iteration with reflective getattr. Byte-level agreement with the Thrift library\'s server-side processor (C-accelerated codec) is assumed, not proved. '
               'Not under contract in this version: VarzSocketWrapper.readAll (bytearray/memoryview variant of the same loop), SerializeThriftCall\'s call sequence, _WrapException.')
